@@ -202,6 +202,10 @@ pub fn run(ctx: &Ctx) -> i32 {
         let (pi, hist) = &cases[ci];
         let prog = &progs[*pi];
         let actions: Vec<&Action> = hist.iter().map(|k| &alphabets[*pi][*k as usize]).collect();
+        if crate::cli::too_many_kills() {
+            acc.skip("not run: six `lace` subprocesses of this worker already had to be killed (each reported)");
+            return;
+        }
         acc.eval("cli");
         let base = &baselines[*pi];
         for tail in [Tail::Quit, Tail::Eof] {
